@@ -38,7 +38,10 @@ func shapes() []shape {
 	bin := "\x00\x01binary\xff data long enough for more than one base64 line: 0123456789012345678901234567890123456789"
 	base := func() bytex.MsgSpec {
 		return bytex.MsgSpec{From: "from@x.test", To: []string{"to@y.test"},
-			Gen: []bytex.KV{{K: "Subject", V: []string{"repeatable rendering"}}}}
+			Gen: []bytex.KV{{K: "Subject", V: []string{"repeatable rendering"}},
+				// multi-valued headers with empty values in every position, and a value that needs encoding
+				{K: "Keywords", V: []string{"alpha", "", "omega"}}, {K: "X-Multi", V: []string{"", "na\xc3\xafve", "", "last"}},
+				{K: "X-Empty-Last", V: []string{"one", "two", ""}}}}
 	}
 	P := func(ct, enc, content string) bytex.PartSpec { return bytex.PartSpec{CType: ct, Enc: enc, Prod: prod(content)} }
 	F := func(name, enc, desc, content string) bytex.FileSpec {
